@@ -6,6 +6,7 @@ import "golang.org/x/tools/go/ssa"
 
 func init() {
 	register(&PropertyCheck{ID: "C19", Level: "proof", Run: checkC19, Canaries: []Canary{
+		{Name: "byte-multiplier-wraps-before-the-bound", Rule: "R19.3", Where: "(*ConnAck).dump", Edits: []Edit{{"connack.go", "\tfmt.Fprintf(w, \"SessionPresent: %v\\n\", p.SessionPresent())", "\tfmt.Fprintf(w, \"SessionPresent: %v\\n\", p.SessionPresent())\n\tif r := byte(p.flags) &^ SessionPresent; r != 0 {\n\t\t// improper, bits 7-1 are reserved; list the ones that are set\n\t\tfmt.Fprint(w, \"ReservedFlags:\")\n\t\tfor i, m := 1, byte(1<<1); ; i, m = i+1, m<<1 {\n\t\t\tif m > 1<<7 {\n\t\t\t\tbreak\n\t\t\t}\n\t\t\tif r&m != 0 {\n\t\t\t\tfmt.Fprintf(w, \" %d\", i)\n\t\t\t}\n\t\t}\n\t\tfmt.Fprintln(w)\n\t}"}}},
 		{Name: "byte-sized-counter-against-a-list-length", Rule: "R19.3", Where: "(*SubAck).dump", Edits: []Edit{{"suback.go", "\tfmt.Fprintf(w, \"ReasonCodes: %v\\n\", p.ReasonCodes())\n\tp.UserProperties.dump(w)\n}\n\nfunc (p *SubAck) SetPacketID", "\tcodes := p.ReasonCodes()\n\tfor i := uint8(0); int(i) < len(codes); i++ {\n\t\tfmt.Fprintf(w, \"ReasonCode: %v\\n\", codes[i])\n\t}\n\tp.UserProperties.dump(w)\n}\n\nfunc (p *SubAck) SetPacketID"}}},
 		{Name: "method-value-bound-to-a-possibly-nil-pointer", Rule: "R19.2", Where: "(*Connect).dump", Edits: []Edit{{"connect.go", "\tif p.will != nil {\n\t\tfmt.Fprintln(w, \"Will\")\n\t\tp.will.dump(w)\n\t}\n", "\td := p.will.dump\n\tfmt.Fprintln(w, \"Will\")\n\td(w)\n"}}},
 		{Name: "builder-grow-by-a-count-that-can-be-negative", Rule: "R19.2", Where: "UnsubAck", Edits: []Edit{{"unsuback.go", "\t\"fmt\"\n\t\"io\"\n)\n\n// UnsubAck and SubAck are exactly the same except for the fixed\n// byte. Keep for now.\n\nfunc NewUnsubAck() *UnsubAck {\n\treturn &UnsubAck{fixed: bits(UNSUBACK)}\n}\n\ntype UnsubAck struct {\n\tfixed    bits\n\tpacketID wuint16\n\tUserProperties\n\n\treasonString wstring\n\treasonCodes  []uint8\n}\n\nfunc (p *UnsubAck) String() string {\n\treturn fmt.Sprintf(\"%s p%v %v bytes\",\n\t\tfirstByte(p.fixed).String(),\n\t\tp.packetID,\n\t\tp.width(),\n\t)", "\t\"fmt\"\n\t\"io\"\n\t\"strings\"\n)\n\n// UnsubAck and SubAck are exactly the same except for the fixed\n// byte. Keep for now.\n\nfunc NewUnsubAck() *UnsubAck {\n\treturn &UnsubAck{fixed: bits(UNSUBACK)}\n}\n\ntype UnsubAck struct {\n\tfixed    bits\n\tpacketID wuint16\n\tUserProperties\n\n\treasonString wstring\n\treasonCodes  []uint8\n}\n\nfunc (p *UnsubAck) String() string {\n\treturn fmt.Sprintf(\"%s p%v %s %v bytes\",\n\t\tfirstByte(p.fixed).String(),\n\t\tp.packetID,\n\t\tp.reasonCodeString(),\n\t\tp.width(),\n\t)\n}\n\n// reasonCodeString returns the names of the reason codes, comma\n// separated, for use in String\nfunc (p *UnsubAck) reasonCodeString() string {\n\tsize := len(p.reasonCodes) - 1 // separators\n\tfor _, c := range p.reasonCodes {\n\t\tsize += len(ReasonCode(c).String())\n\t}\n\tvar sb strings.Builder\n\tsb.Grow(size)\n\tfor i, c := range p.reasonCodes {\n\t\tif i > 0 {\n\t\t\tsb.WriteByte(',')\n\t\t}\n\t\tsb.WriteString(ReasonCode(c).String())\n\t}\n\treturn sb.String()"}}},
